@@ -41,7 +41,7 @@ type Case struct {
 
 var allKinds = []string{kPlain, kPlainBad, kEmpty, kGzip, kGzip2, kTruncGz, kCorruptGz, kBadCrcGz, kFakeGz, kSubdir, kMissing}
 
-var allForms = []string{fPaths, fGlob, fRecursive, fRecursivePaths, fTwice, fDirAsFile, fDash, fNone, fDashFirst}
+var allForms = []string{fPaths, fGlob, fRecursive, fRecursivePaths, fTwice, fDirAsFile, fDash, fNone, fDashFirst, fGlobLiteral, fGlobExt}
 
 var variants = []string{"filter", "histo"}
 
@@ -76,6 +76,18 @@ func formApplies(form string, kinds []string) bool {
 	switch form {
 	case fDashFirst:
 		return len(kinds) >= 1
+	case fGlobExt:
+		// both patterns must have an expansion (what an argument without any is, the statement does not say)
+		var log, gz bool
+		for _, k := range kinds {
+			switch k {
+			case kPlain, kPlainBad, kEmpty:
+				log = true
+			case kGzip, kGzip2, kTruncGz, kCorruptGz, kBadCrcGz, kFakeGz:
+				gz = true
+			}
+		}
+		return log && gz
 	case fDash, fNone:
 		// standard input carries the bytes of the single entry; trees with
 		// more entries add nothing to these forms
@@ -161,6 +173,9 @@ func worker(w *runner.W) {
 		for _, form := range allForms {
 			if !formApplies(form, kinds) {
 				continue
+			}
+			if w.Quick() && len(kinds) == 3 && (form == fGlobLiteral || form == fGlobExt) {
+				continue // quick: these two forms with trees of up to 2 entries
 			}
 			caseNo++
 			if !w.Owns(caseNo) {
@@ -616,7 +631,7 @@ func main() {
 		Rule: func(prop, tier string) string {
 			return "real rare binary, one process per case: every directory tree t/ with 0..3 entries (ordered, named e0..e2) over the kinds {" + strings.Join(allKinds, ", ") +
 				"} (1+11+121+1331 trees; a subdir entry holds in.log and sub/deep.log) x argument forms {" + strings.Join(allForms, ", ") +
-				"} (paths: every entry by name; glob: t/*; recursive: -R t; recursive-paths: -R with every entry by name; twice: every entry named twice; dir-as-file: t itself then every entry; dash/none: standard input carrying the bytes of the single entry, trees of <=1 file entries only; dash-first: `-` followed by every entry, filter only) x -z {off,on} x --readers=--workers {1,2} x command {filter -e '{src}:{line}:{0}' (every line printed), histogram -m '" + histoRegex + "' -e {1} -e {2} --csv}; " +
+				"} (paths: every entry by name; glob: t/*; recursive: -R t; recursive-paths: -R with every entry by name; twice: every entry named twice; dir-as-file: t itself then every entry; dash/none: standard input carrying the bytes of the single entry, trees of <=1 file entries only; dash-first: `-` followed by every entry, filter only; literal-name-with-pattern-characters: every entry by name plus an existing file t/x[1].log named literally, which as a pattern does not match itself; glob-by-extension: `t/*.log t/e?.gz` for trees holding at least one entry of each extension - these two forms with trees of up to 2 entries in the quick tier) x -z {off,on} x --readers=--workers {1,2} x command {filter -e '{src}:{line}:{0}' (every line printed), histogram -m '" + histoRegex + "' -e {1} -e {2} --csv}; " +
 				map[string]string{"quick": "", "thorough": "thorough adds every tree with 4 entries (14641) x forms {paths, glob, recursive} x filter x -z x --readers {1,2}; "}[tier] +
 				"standard input always comes from a file (a sentinel line when it must not be read). Oracle: multiset of source:line:text (filter) / exported counts (histogram) against an independent reference, exit status, error mention on stderr. Plus helpers.DetermineErrorState over {0,1,2}^3 (and a nil aggregator). non-trivial = at least one named input exists in the reference (a case whose inputs are all absent only checks the exit status)"
 		},
